@@ -5,8 +5,8 @@
 //@ assumes: keys are JSON numbers built from any i64 / u64 / f64, the strings "a"/"b", bool and null
 //@ decides: C24: a canon-map key taken from a scalar (from_value_ref) is the SAME key the map stored when the pair was inserted (from_value) and the same key a literal index in the lens produces (From<u32>), for every number; non-key JSON types give no key in both functions; a key converts back to the JSON value it came from
 //@ outside: hashing of keys inside the map, grouping of values per key, the lens parser
-//@ harness: name=c24_map_key_from_scalar_equals_stored_key props=C24 cap=600 cost=20 sym="n: any i64; u: any u64; x: any f64; idx: any u32" bound="none (loop-free)"
-//@ harness: name=c24_map_key_strings_and_non_keys props=C24 cap=600 cost=30 sym="string chosen from {a,b}; bool any" bound="1-byte strings"
+//@ harness: name=c24_map_key_from_scalar_equals_stored_key playback=1 props=C24 cap=600 cost=20 sym="n: any i64; u: any u64; x: any f64; idx: any u32" bound="none (loop-free)"
+//@ harness: name=c24_map_key_strings_and_non_keys playback=1 props=C24 cap=600 cost=30 sym="string chosen from {a,b}; bool any" bound="1-byte strings"
 
 use super::*;
 
